@@ -3,6 +3,9 @@ import PW.Spec
 import PW.Ops
 import PW.EinsumGen
 import PW.Interp
+import PW.Overlap
+import PW.Rng
+import PW.OpModel
 /-!
 # JSON-lines driver for the executable model (compiled as `pwdriver`, Mathlib-free)
 
@@ -290,6 +293,28 @@ def step (s : St) (j : Json) : Except String (St × Json) := do
       match Interp.eval ctx e with
       | .ok v => pure (s, ok [("val", valToJson v)])
       | .error msg => pure (s, ok [("err", Json.str msg)])
+  | "overlap" => do
+      let s1 ← getF j "sigma1"; let s2 ← getF j "sigma2"
+      let m1 ← getF j "mu1"; let m2 ← getF j "mu2"; let d ← getF j "delay"
+      pure (s, ok [("v", fbits (Overlap.overlapClosed s1 s2 m1 m2 d))])
+  | "rng" => do
+      let seed ← (← j.getObjVal? "seed").getNat?
+      let n ← (← j.getObjVal? "n").getNat?
+      let (ks, c) := Rng.draws n (Rng.setSeed ⟨.root 0⟩ seed)
+      pure (s, ok [("keys", toJson (ks.map Rng.path)), ("state", Json.str (Rng.path c.key))])
+  | "dims" => do
+      let t ← (← j.getObjVal? "type").getStr?
+      let q ← natList (← j.getObjVal? "q")
+      let sizes ← natList (← j.getObjVal? "sizes")
+      let old ← natList (← j.getObjVal? "old")
+      let ty ← match t with
+        | "Creation" => pure OpModel.OpType.creation | "Annihilation" => pure .annihilation
+        | "PhaseShift" => pure .phaseShift | "FockIdentity" => pure .fockIdentity | "FockCustom" => pure .fockCustom
+        | "Polarization" => pure .polarization | "CustomState" => pure .customState
+        | "BS" => pure .beamSplitter | "CX" => pure .cx | "CZ" => pure .cz | "SWAP" => pure .swap
+        | "CSWAP" => pure .cswap | "Expression" => pure .expression
+        | _ => throw s!"unknown operation type {t}"
+      pure (s, ok [("dims", toJson (OpModel.dimsFor ty q sizes old))])
   | "canon" => do
       let str ← (← j.getObjVal? "s").getStr?
       match parsePlan str with
